@@ -15,7 +15,6 @@ import (
 	"github.com/glowlabs-org/gca-backend/client"
 	"github.com/glowlabs-org/gca-backend/glow"
 
-	"verifh/ev"
 	"verifh/pool"
 )
 
@@ -258,7 +257,7 @@ func init() {
 		return c16Run(j), nil
 	})
 	checks["C16"] = func(tier string) int {
-		run := ev.NewRun("C16", tier, "exploration")
+		run := newRun("C16", tier, "exploration")
 		var jobs []interface{}
 		shards := 8
 		for c := range c16Calibrations() {
